@@ -274,6 +274,11 @@ func c02(r *h.Result, rng *h.Rng, tier string, replay string) error {
 	var rep *scenario
 	if replay != "" {
 		rep = loadReplayScenario(replay)
+		if rep == nil {
+			if doc := loadReplayDoc(replay); doc != nil && doc["stream"] == "lock-probe" {
+				return c02ReplayProbe(r, rng.Fork(), doc, "C02/")
+			}
+		}
 	}
 	nScen, maxOps, connFail, nProm := 300, 40, 12, 60
 	if tier == "thorough" || tier == "search" {
@@ -287,5 +292,12 @@ func c02(r *h.Result, rng *h.Rng, tier string, replay string) error {
 	if rep != nil {
 		return nil
 	}
-	return c02Prom(r, rng.Fork(), nProm)
+	if err := c02Prom(r, rng.Fork(), nProm); err != nil {
+		return err
+	}
+	rounds, iters := 12, 120
+	if tier != "quick" {
+		rounds, iters = 96, 300
+	}
+	return c02LockProbe(r, rng.Fork(), rounds, iters, "C02/")
 }
